@@ -345,7 +345,7 @@ def server_case(problems):
         return (json.dumps(dict({"__kind__": kind}, **kw)) + "\n").encode()
 
     try:
-        good = talk([enq("a", "sleep 0.3")], read=1)
+        good = talk([enq("a", "sleep 5")], read=1)
         ta = good[0]["tid"]
         bads = [[b"not json\n"], [b"[1, 2]\n"], [msg("cancel_task", tid=999)], [b'{"__kind__": "enqueue_task"}\n'],
                 [b'{"__kind__": "nosuch", "x": 1}\n'], [b'{"no_kind": 1}\n'], [], [b'{"__kind__": "get_task_state"}\n'],
@@ -359,6 +359,13 @@ def server_case(problems):
         time.sleep(0.05)
         accepted = {ta: ("a", "CANCELLED")}
         order = [ta]
+        # accepted tasks that cannot be spawned (their working directory does not exist): each ends FAILED and has to
+        # give its core back, or the pool (2 cores) stops running the tasks accepted after them (S118)
+        for name in ("nowd1", "nowd2", "nowd3"):
+            r = talk([(json.dumps({"__kind__": "enqueue_task", "name": name, "script": "exit 0", "time_limit": None,
+                                   "working_dir": str(d / "no-such-dir"), "deps": []}) + "\n").encode()], read=1)
+            accepted[r[0]["tid"]] = (name, "FAILED")
+            order.append(r[0]["tid"])
         more = [("b", "exit 0", [ta], "CANCELLED"), ("c", "exit 0", [], "COMPLETED"), ("d", "exit 3", [], "FAILED"),
                 ("e", "exit 0", [], "COMPLETED"), ("f", "exit 1", [], "FAILED"), ("g", "exit 0", [], "COMPLETED")]
         for name, script, deps, final_state in more:
@@ -403,7 +410,7 @@ def replay_server(eng, ob, model, seed):
     finally:
         logging.disable(logging.NOTSET)
     if not problems:
-        return {"failed_on_real_code": False, "candidates_tried": 1, "bound": "21 misbehaving connections (malformed, incomplete, unknown kinds, unknown ids near the live ones), 7 tasks"}
+        return {"failed_on_real_code": False, "candidates_tried": 1, "bound": "21 misbehaving connections (malformed, incomplete, unknown kinds, unknown ids near the live ones), 10 tasks of which 3 cannot be spawned"}
     return {"failed_on_real_code": True, "input": {"scenario": "misbehaving clients"}, "observed": problems,
             "candidates_tried": 1, "witness_class": "server", "call": "real Server over 127.0.0.1 sockets"}
 
